@@ -77,3 +77,27 @@ func GoroutineTag() string {
 	}
 	return ""
 }
+
+// GoroutineRoot names the calling goroutine by the outermost go-orbit-db function on its stack (the function
+// it was started in), closure suffixes stripped: a stable name for goroutines the code under test starts
+// itself (store main loop, replicator workers).
+func GoroutineRoot() string {
+	pcs := make([]uintptr, 64)
+	n := runtime.Callers(2, pcs)
+	frames := runtime.CallersFrames(pcs[:n])
+	root := ""
+	for {
+		f, more := frames.Next()
+		if strings.Contains(f.Function, "berty.tech/go-orbit-db/") && !strings.Contains(f.Function, "/verifhook") {
+			fn := f.Function[strings.LastIndex(f.Function, "/")+1:]
+			if i := strings.Index(fn, ".func"); i >= 0 {
+				fn = fn[:i]
+			}
+			root = fn
+		}
+		if !more {
+			break
+		}
+	}
+	return root
+}
